@@ -572,6 +572,84 @@ impl World {
         None
     }
 
+
+    /// C12 "changes only on collision": the instances an operation brings into a DOM, each with the UniqueId it
+    /// arrived with (None = no UniqueId property).  For clones the copy arrives with its original's id.
+    pub fn arrivals(&self, op: &Op, ret: &[u64], uid_before: &[BTreeMap<u64, UniqueId>], present_before: &[BTreeSet<u64>])
+        -> Option<(usize, Vec<(u64, Option<UniqueId>)>)> {
+        fn bt_uid(b: &BT) -> Option<UniqueId> {
+            // the builder's Vec collects into a map: the last entry for a key wins
+            let mut u = None;
+            for (k, v) in &b.props {
+                if *k == 0 {
+                    u = match v { PV::U(n) => Some(World::pool_uid(*n)), _ => None };
+                }
+            }
+            u
+        }
+        fn bt_bfs(b: &BT, out: &mut Vec<(u64, Option<UniqueId>)>) {
+            let mut q: VecDeque<&BT> = VecDeque::from([b]);
+            while let Some(x) = q.pop_front() {
+                out.push((x.label, bt_uid(x)));
+                q.extend(x.kids.iter());
+            }
+        }
+        match op {
+            Op::New(b) => {
+                let mut v = Vec::new();
+                bt_bfs(b, &mut v);
+                Some((self.doms.len() - 1, v))
+            }
+            Op::Insert(d, _, b) => {
+                let mut v = Vec::new();
+                bt_bfs(b, &mut v);
+                Some((*d, v))
+            }
+            Op::Move(d, _, d2, _) => {
+                // everything that was in the source before and is in the destination now
+                let v = present_before[*d]
+                    .iter()
+                    .filter(|l| !present_before[*d2].contains(l) && self.doms[*d2].get_by_ref(self.label2ref[l]).is_some())
+                    .map(|l| (*l, uid_before[*d].get(l).copied()))
+                    .collect();
+                Some((*d2, v))
+            }
+            Op::CloneWithin(..) | Op::CloneExt(..) | Op::CloneMulti(..) => {
+                let (sd, dd, origs): (usize, usize, Vec<u64>) = match op {
+                    Op::CloneWithin(d, r) => (*d, *d, vec![*r]),
+                    Op::CloneExt(d, r, d2) => (*d, *d2, vec![*r]),
+                    Op::CloneMulti(d, rs, d2) => (*d, *d2, rs.clone()),
+                    _ => unreachable!(),
+                };
+                if ret.len() != origs.len() {
+                    return None;
+                }
+                let mut v = Vec::new();
+                for (o, c) in origs.iter().zip(ret.iter()) {
+                    let mut q = VecDeque::from([(self.label2ref[o], *self.label2ref.get(c)?)]);
+                    let mut guard = 0;
+                    while let Some((a, b)) = q.pop_front() {
+                        guard += 1;
+                        if guard > 100_000 {
+                            return None;
+                        }
+                        let ia = self.doms[sd].get_by_ref(a)?;
+                        let ib = self.doms[dd].get_by_ref(b)?;
+                        v.push((self.label_of(b), uid_before[sd].get(&self.label_of(a)).copied()));
+                        if ia.children().len() != ib.children().len() {
+                            return None;
+                        }
+                        for (x, y) in ia.children().iter().zip(ib.children().iter()) {
+                            q.push_back((*x, *y));
+                        }
+                    }
+                }
+                Some((dd, v))
+            }
+            _ => None,
+        }
+    }
+
     /// per-DOM table label -> UniqueId (for the C12 minimal-change oracle)
     pub fn uid_table(&self) -> Vec<BTreeMap<u64, UniqueId>> {
         self.doms
@@ -1014,6 +1092,48 @@ pub fn run_case(lines: &[String]) -> CaseResult {
                         if let Some(u2) = uid_after.get(di).and_then(|m| m.get(l)) {
                             if u2 != u {
                                 oracle.push(format!("C12 step {k}: UniqueId of {l} in dom{di} changed although it did not move"));
+                            }
+                        }
+                    }
+                }
+                // C12 "replaced only on collision, otherwise preserved exactly; freed ids are available again":
+                // judged against the ids actually HELD in the destination before the operation
+                let present_before: Vec<BTreeSet<u64>> = before.iter().map(|m| m.keys().copied().collect()).collect();
+                let mut ub = uid_before.clone();
+                let mut pb = present_before.clone();
+                while ub.len() < w.doms.len() {
+                    ub.push(BTreeMap::new());
+                    pb.push(BTreeSet::new());
+                }
+                if let Some((dd, arr)) = w.arrivals(&op, &ret, &ub, &pb) {
+                    let held: std::collections::HashSet<UniqueId> = ub[dd].values().copied().collect();
+                    let now = &uid_after[dd];
+                    for (l, u0) in &arr {
+                        match u0 {
+                            None => {
+                                if now.contains_key(l) {
+                                    oracle.push(format!("C12 step {k}: instance {l} arrived without a UniqueId but has one now"));
+                                }
+                            }
+                            Some(u) => {
+                                let after = now.get(l);
+                                if held.contains(u) {
+                                    if after == Some(u) {
+                                        oracle.push(format!("C12 step {k}: instance {l} kept UniqueId {u} although dom{dd} already held it"));
+                                    }
+                                } else {
+                                    let group: Vec<u64> = arr.iter().filter(|(_, x)| x.as_ref() == Some(u)).map(|(l2, _)| *l2).collect();
+                                    let keepers = group.iter().filter(|l2| now.get(l2) == Some(u)).count();
+                                    if keepers != 1 {
+                                        oracle.push(format!(
+                                            "C12 step {k}: UniqueId {u} was free in dom{dd} (no instance held it) yet {} of the {} arriving instance(s) carrying it kept it (instance {l})",
+                                            keepers, group.len()
+                                        ));
+                                    }
+                                }
+                                if after.is_none() {
+                                    oracle.push(format!("C12 step {k}: instance {l} lost its UniqueId property on arrival"));
+                                }
                             }
                         }
                     }
